@@ -8,7 +8,8 @@ def replay_ipm(tool, a, b, fa, fb, msgs):
     from cardutil import mciipm
     from cardutil.config import config
     from cardutil.cli import mci_ipm_encode, mideu
-    cfgs = config['bit_config']
+    from . import packaged
+    cfgs = packaged.bit_config()
     ms = [ref.concrete_msg(m, cfgs) for m in msgs]
     f = io.BytesIO()
     w = mciipm.IpmWriter(f, encoding=a, blocked=fa)
